@@ -61,6 +61,7 @@ fn alphabet(st: &State, full: bool) -> Vec<Op> {
         v.push(Op::Override(f.clone(), 3));
         v.push(Op::Bump(f.clone(), 1));
         if full || matches!(f, Field::Major | Field::PreNum | Field::Post) { v.push(Op::Bump(f.clone(), 2)); }
+        if full || matches!(f, Field::Minor | Field::Post) { v.push(Op::Bump(f.clone(), 0)); }
     }
     v.push(Op::OverrideLabel("alpha"));
     v.push(Op::OverrideLabel("rc"));
@@ -72,6 +73,8 @@ fn alphabet(st: &State, full: bool) -> Vec<Op> {
             let val = if matches!(c, RComp::Str(_)) { "z" } else { "4" };
             v.push(Op::SecOverride(sec.clone(), i.to_string(), val.into()));
             v.push(Op::SecBump(sec.clone(), i.to_string(), None));
+            // the value zero: an override to 0 and a bump by 0 (a pure reset of the lower levels) are ordinary operations
+            if !matches!(c, RComp::Str(_)) && (full || i % 2 == 1) { v.push(Op::SecOverride(sec.clone(), i.to_string(), "0".into())); }
         }
         if len > 0 {
             let lastval = if matches!(comps[len - 1], RComp::Str(_)) { "y" } else { "6" };
@@ -79,6 +82,8 @@ fn alphabet(st: &State, full: bool) -> Vec<Op> {
             v.push(Op::SecBump(sec.clone(), "~1".into(), None));
             v.push(Op::SecOverride(sec.clone(), format!("~{len}"), "8".into()));
             v.push(Op::SecBump(sec.clone(), "0".into(), Some("2".into())));
+            v.push(Op::SecBump(sec.clone(), "~1".into(), Some("0".into())));
+            if len > 1 { v.push(Op::SecBump(sec.clone(), "1".into(), Some("0".into()))); }
             if full { v.push(Op::SecBump(sec.clone(), format!("-{len}"), Some("3".into()))); }
         }
     }
